@@ -91,6 +91,16 @@ def run(env, tier, seed, broken=None):
              ('%s 1;' % RETURN, 'RStrayReturn', 'top'), ('%s q1 = 1, q1 = 2;' % VAR, 'RRedeclare', 'any'),
              ('%s fp(pa, pb) { %s "in-fp"; }\nfp(1, 2);' % (FUN, PRINT), None, 'none')]
     stmts = [x for x in stmts if x[1]]
+    # a stray return whose value is computed by calls that execute returns of their own on other lines: the diagnostic names
+    # the line of the stray keyword
+    for st in ['%s fn2(1);' % RETURN, '%s fn3(fn2(1), 2);' % RETURN, '%s fn2(fn2(fn2(0)));' % RETURN, '%s [fn2(1)][0] + fn3(1, 2);' % RETURN,
+               '%s\n  fn2(\n  1);' % RETURN, '%s deep(3);' % RETURN]:
+        for enc in ('none', 'block', 'if', 'else', 'while', 'for'):
+            lines, k = wrap(st, enc)
+            cid = 'm%d' % n; n += 1
+            src = PRE + '%s deep(d) {\n  %s (d > 0) {\n    %s deep(d - 1);\n  }\n  %s 0;\n}\n' % (FUN, IF, RETURN, RETURN) + '\n'.join(lines) + '\n' + POST
+            cases.append({'id': cid, 'src': src, 'stdin': 'in1\nin2\n', 'timeout_ms': 2500})
+            want[cid] = ('RStrayReturn', PRE_LINES + 6 + k + 1)
     param_faults = [('%s nv;\n%s nv = 5;' % (VAR, VAR), 'RRedeclare', 1), ('%s nw = %s;\n%s nw;' % (VAR, NIL, VAR), 'RRedeclare', 1),
                     ('%s fq(pa, pb) {\n  %s pa = 5;\n  %s "after-in";\n}\nfq(1, 2);' % (FUN, VAR, PRINT), 'RRedeclare', 1), ('%s fr() {\n  %s fr = 5;\n  %s "after-in";\n}\nfr();' % (FUN, VAR, PRINT), 'RRedeclare', 1)]
     for st, kind, off in param_faults:
